@@ -213,6 +213,9 @@ def main():
         # unparse normalises the file: compare against the unparsed original so that only the edit differs
         for desc, new in mutants_of(rel, base[rel]):
             allm.append((desc, rel, new))
+    skip_ops = sys.argv[3].split(',') if len(sys.argv) > 3 else []
+    if skip_ops:
+        allm = [m for m in allm if m[0].split(' ')[1] not in skip_ops]
     random.Random(seed).shuffle(allm)
     sample = allm[:n_sample]
     print('mutants: %d generated, %d sampled' % (len(allm), len(sample)), flush=True)
@@ -241,7 +244,7 @@ def main():
         verdict = 'reported' if fired else ('undecided' if errors else 'silent')
         cm[('changed' if changed else 'same') + '&' + verdict] += 1
         rows.append({'mutant': desc, 'behaviour_changed': changed, 'static': verdict, 'properties': fired, 'errors': errors, 'digests': res})
-    out = os.path.join(ROOT, 'tools', 'triage', 'mutation_study.json')
+    out = os.path.join(ROOT, 'tools', 'triage', 'mutation_study_seed%d.json' % seed)
     with open(out, 'w') as fh:
         json.dump({'sampled': len(sample), 'generated': len(allm), 'seed': seed, 'confusion': cm, 'rows': rows}, fh, indent=1)
     print(json.dumps(cm, indent=1))
